@@ -407,7 +407,15 @@ def _signapp_operations(run, PV):
                 sig_raw = sig_t[:-len(".hex()")]
                 want_v = _strip(f"ecdsa.VerifyingKey.from_string(get_eth_dongle(options.verbose).get_pubkey(BIP32Path(options.path)), curve=ecdsa.SECP256k1)"
                                 f".verify_digest({sig_raw}, {hit}.get_authorization_digest(), sigdecode=ecdsa.util.sigdecode_der)")
-                okv = any(_strip(norm(lf.deep(ast.parse(k, mode='eval').body, stop=('options',)))) == want_v and b for k, b in pcs.items() if "verify_digest" in k)
+                okv = False
+                for k, b in pcs.items():
+                    try:
+                        t_ = _strip(norm(lf.deep(ast.parse(k, mode='eval').body, stop=('options',))))
+                    except SyntaxError:
+                        continue
+                    # the verdict itself, or a flag holding its negation
+                    if (t_ in (want_v, f"bool({want_v})") and b) or (t_ in (f"not {want_v}", f"not bool({want_v})") and not b):
+                        okv = True
                 run.check("R5", okv, "`eth`: stored only if it verifies under the dongle's key for that path", key="signapp|eth|verified", where=where,
                           message="signapp eth stores the dongle's signature without it having verified (DER) against the authorization digest under the public key the dongle "
                                   f"reported for the same path (conditions on the path: {[k[:60] for k, b in pcs.items() if 'verify' in k]})")
